@@ -595,6 +595,13 @@ def _local_alias_normal_form(tree):
                 del cands[n]
         if cands:
             rewrite(f, set())
+            # an abbreviation nothing reads any more is gone
+            for n, (kind, v, roots, st) in cands.items():
+                if not any(isinstance(x, ast.Name) and x.id == n and
+                           isinstance(x.ctx, ast.Load)
+                           for x in ast.walk(f)) and st in f.body:
+                    f.body[f.body.index(st)] = ast.copy_location(
+                        ast.Pass(), st)
 
     for f in [n for n in ast.walk(tree)
               if isinstance(n, (ast.FunctionDef, ast.AsyncFunctionDef))]:
